@@ -154,6 +154,51 @@ def string_builtin(name, args):
     return NotImplemented
 
 
+def _unroll_fld(k):
+    """expression key of a (possibly nested) field access -> (root key, [field, ...]) or (None, None)"""
+    path = []
+    while isinstance(k, tuple) and len(k) == 3 and k[0] == "fld":
+        path.insert(0, k[2])
+        k = k[1]
+    return (k, path) if path else (None, None)
+
+
+def struct_to_heap(env, varkey, objid, out):
+    """copy the expression-keyed fields of a local struct variable into heap cells of object `objid` (nested structs become sub-objects ("sub", parent, field))"""
+    for k, v in list(env.items()):
+        root, path = _unroll_fld(k)
+        if root != varkey:
+            continue
+        obj = objid
+        for fl in path[:-1]:
+            sub = ("sub", obj, fl)
+            out[("@", obj, fl)] = PPtr(sub)
+            obj = sub
+        out[("@", obj, path[-1])] = v
+
+
+def heap_to_struct(env, objid, varexpr, out):
+    """inverse of struct_to_heap: heap cells of `objid` (and its sub-objects) -> expression keys below varexpr"""
+    def path_of(o):
+        p = []
+        while isinstance(o, tuple) and len(o) == 3 and o[0] == "sub":
+            p.insert(0, o[2])
+            o = o[1]
+        return o, p
+    for k, v in env.items():
+        if not (isinstance(k, tuple) and len(k) == 3 and k[0] == "@"):
+            continue
+        root, p = path_of(k[1])
+        if root != objid or (isinstance(k[2], str) and k[2].startswith("#")):
+            continue
+        if isinstance(v, PPtr) and isinstance(v.id, tuple) and v.id[:1] == ("sub",) and path_of(v.id)[0] == objid:
+            continue
+        e = varexpr
+        for fl in p + [k[2]]:
+            e = ["fld", e, fl, "."]
+        out[nkey(e)] = v
+
+
 def run_all(fn, start, env, stop_pred, P=None, call_value=None, max_steps=400, exit_blocks=(), _budget=None, notable=None):
     """All outcomes of following the CFG from `start`; a condition that cannot be evaluated because it reads state the
     rule does not track (a lock pointer, a debug mask) forks into both edges (at most 64 forks)."""
@@ -285,6 +330,7 @@ def _run1(fn, start, env, stop_pred, P, call_value, max_steps, exit_blocks, fork
                             return Outcome("unknown", el, env, trace, "call depth")
                         outs_ = {}
                         arrs_ = {}
+                        structs_ = {}
                         for i_, ((pn, pt), a) in enumerate(zip(g.params, e[2])):
                             sa = strip(normx(a))
                             if is_e(sa, "var") and "[" in (fn.var_type(sa[1]) or "") and "*" in pt.replace("[", "*"):
@@ -297,6 +343,14 @@ def _run1(fn, start, env, stop_pred, P, call_value, max_steps, exit_blocks, fork
                                 env2[pn] = PRef(None, cellbase)
                                 env2["#arrays"] = 1
                                 arrs_[cellbase] = sa
+                                continue
+                            if is_e(sa, "addr") and is_e(strip(sa[1]), "var") and (fn.var_type(strip(sa[1])[1]) or "").startswith("struct ") and "*" not in (fn.var_type(strip(sa[1])[1]) or "") and "[" not in (fn.var_type(strip(sa[1])[1]) or ""):
+                                # address of a local struct: the struct becomes a heap object for the duration of the call
+                                sv = strip(sa[1])
+                                objid = ("loc", depth, i_, sv[1])
+                                struct_to_heap(env, key(sv), objid, env2)
+                                env2[pn] = PPtr(objid)
+                                structs_[objid] = sv
                                 continue
                             if is_e(sa, "addr") and is_e(strip(sa[1]), "var"):
                                 cellname = "#out%d.%d" % (depth, i_)
@@ -326,6 +380,15 @@ def _run1(fn, start, env, stop_pred, P, call_value, max_steps, exit_blocks, fork
                             upd_ = dict((k_, v_) for k_, v_ in so.env.items() if (isinstance(k_, tuple) and k_ and (k_[0] in ("@", "m") or (isinstance(k_[0], str) and k_[0].startswith("#arr") and k_[0] not in arrs_))) or (isinstance(k_, str) and k_.startswith("#") and k_ not in outs_ and k_ not in ("#depth", "#trace", "#typed")))
                             for cellname, vn in outs_.items():
                                 upd_[vn] = so.env.get(cellname)
+                            for objid_, sv_ in structs_.items():
+                                heap_to_struct(so.env, objid_, sv_, upd_)
+                                for k_ in list(upd_.keys()):
+                                    if isinstance(k_, tuple) and len(k_) == 3 and k_[0] == "@":
+                                        o_ = k_[1]
+                                        while isinstance(o_, tuple) and len(o_) == 3 and o_[0] == "sub":
+                                            o_ = o_[1]
+                                        if o_ == objid_:
+                                            del upd_[k_]
                             for k_, v_ in so.env.items():
                                 if isinstance(k_, tuple) and len(k_) == 2 and k_[0] in arrs_:
                                     upd_[nkey(["idx", arrs_[k_[0]], ["int", k_[1]]])] = v_
